@@ -36,6 +36,19 @@ public:
         data = &nullData;
     }
 
+    Variant& operator=(const Variant& other)
+    {
+      Data* newData = &nullData;
+      if(other.data->ref)
+      {
+        newData = other.data;
+        Atomic::increment(newData->ref);
+      }
+      clear();
+      data = newData;
+      return *this;
+    }
+
     Variant(const Element& val)
     {
       data = (Data*)new char[sizeof(Data) + sizeof(Element)];
